@@ -693,10 +693,23 @@ __strfd_card(
 			break;
 		}
 		case DT_YD:
+			/* don't use d->d, an earlier %m or %d will have turned
+			 * it into the day of the month */
 			res = ui999topstr(
-				buf, bsz, d->d,
+				buf, bsz, that.yd.d,
 				3 - (s.pad == DT_SPPAD_OMIT) << 1U, padchar(s));
 			break;
+		case DT_YMCW:
+		case DT_YWD:
+		case DT_DAISY: {
+			/* go through ymd */
+			dt_ymd_t tmp = dt_dconv(DT_YMD, that).ymd;
+
+			res = ui999topstr(
+				buf, bsz, __ymd_get_yday(tmp),
+				3 - (s.pad == DT_SPPAD_OMIT) << 1U, padchar(s));
+			break;
+		}
 		case DT_LDN:
 			res = snprintf(buf, bsz, "%u", that.ldn);
 			break;
